@@ -47,7 +47,7 @@ META = {
     "level_note": "Trusted: the session helper (vf/session.py), the rendering of results in vf.session.observe_result.",
 }
 PLAN = {
-    "quick": {"shards": 16, "examples": 320},
+    "quick": {"shards": 16, "examples": 160, "timeout": 3000},
     "thorough": {"shards": 16, "examples": 9000, "timeout": 3000},
 }
 
